@@ -884,6 +884,7 @@ func main() {
 			"for hosts whose longest public suffix is private or an unmanaged TLD the project looks up the whole last-four-labels space, which may include an ICANN suffix such as 'com' of x.blogspot.com (own unit test private_domain_v2); such a name may be looked up and may decide the verdict but need not",
 			"a full hash is a TXT string of exactly 64 hexadecimal digits; upstream errors are not injected",
 			"cache transparency is checked for a fixed database; with switches only the CacheTime window is demanded",
+			"the one database whose answers carry hashes of two different prefixes is explored with the unlimited cache only: storeInCache walks a Go map, so with a size limit the LRU order and the eviction victim would differ from run to run",
 		},
 	})
 }
